@@ -69,20 +69,6 @@ const (
 	c08Active = 6 * time.Hour
 )
 
-func (e *vEnv) resetRegistry() {
-	old := e.rm.registeredDecoys
-	nr := NewRegisteredDecoys()
-	for k, v := range old.transports {
-		nr.transports[k] = v
-	}
-	nr.registerForDetector = old.registerForDetector
-	nr.updateInDetector = old.updateInDetector
-	e.rm.registeredDecoys = nr
-	e.mu.Lock()
-	e.anns = nil
-	e.mu.Unlock()
-}
-
 func c08MakeReg(e *vEnv, o c08Op) (*DecoyRegistration, error) {
 	w := vWrapper(c08Secret(o.Secret), c08TT[o.TT], 0, "192.0.2.10:443", !o.V6, o.V6, 4, 957, pb.RegistrationSource_API, net.ParseIP("198.51.100.7").To4())
 	if o.Ovr > 0 {
